@@ -11,7 +11,7 @@ def docArg (h : String) : Option Str := (hexArg h).map strOfBytes
 def docOut (s : Str) : String := "ok " ++ hexOut (bytesOfStr s)
 
 private def binArg (s : String) : Option (List Bool) := if s == "-" then some [] else Bits.ofBinString? s
-def binOut (l : List Bool) : String := if l.isEmpty then "-" else Bits.toBinString l
+private def binOut (l : List Bool) : String := if l.isEmpty then "-" else Bits.toBinString l
 
 def anyArg (s : String) : Option (Option Anycast) :=
   if s == "-" then some none
